@@ -888,6 +888,8 @@ def model_value(m, v, depth=0):
         return [model_value(m, v.get(i), depth + 1) for i in range(min(n, 8))] + (["..."] if n > 8 else [])
     if isinstance(v, (tuple, list)):
         return [model_value(m, x, depth + 1) for x in v]
+    if type(v).__name__ in ("PRow", "Arr"):
+        return [model_value(m, x, depth + 1) for x in (v.values if hasattr(v, "values") else v.items)]  # one row / the array
     if isinstance(v, dict):
         return {str(k): model_value(m, x, depth + 1) for k, x in v.items()}
     if isinstance(v, SymObj):
